@@ -409,7 +409,9 @@ def _enclosing_def(node: ast.AST) -> Optional[ast.AST]:
 
 
 def own_nodes(fn: ast.FunctionDef) -> Iterator[ast.AST]:
-    """Walk the body of `fn` without descending into nested defs/lambdas/classes."""
+    """Walk the body of `fn` without descending into defs/classes nested in its statements.  (A def that is itself a
+    statement of the body IS walked: the rules grew up reading a local helper's statements as the function's own; rules
+    that must not - returns, local bindings - filter with `in_nested_def`.)"""
     stack: List[ast.AST] = list(reversed(fn.body))
     while stack:
         n = stack.pop()
@@ -418,6 +420,16 @@ def own_nodes(fn: ast.FunctionDef) -> Iterator[ast.AST]:
             if isinstance(ch, (ast.FunctionDef, ast.ClassDef, ast.AsyncFunctionDef)):
                 continue
             stack.append(ch)
+
+
+def in_nested_def(x: ast.AST, fn: ast.AST) -> bool:
+    """x stands inside a def/lambda nested in fn (not in fn's own statements)."""
+    par = getattr(x, "_parent", None)
+    while par is not None and par is not fn:
+        if isinstance(par, (ast.FunctionDef, ast.AsyncFunctionDef, ast.Lambda)):
+            return True
+        par = getattr(par, "_parent", None)
+    return False
 
 
 def src(node: ast.AST) -> str:
